@@ -174,8 +174,21 @@ def x_assert(ctx, case):
         return False
     observed = {}
 
+    where = case.get("where", "test")
+
     class T(testtools.TestCase):
+        def setUp(self):
+            super().setUp()
+            if where != "test":
+                self._body()
+                if where == "setUp-then-skip":
+                    self.skipTest("skipping after the expectation")
+
         def test(self):
+            if where == "test":
+                self._body()
+
+        def _body(self):
             for name, text in pre:
                 self.addDetail(name, testtools.content.text_content(text))
             m = WithDetails(G.build(expr, E), mdetails)
@@ -213,7 +226,8 @@ def x_assert(ctx, case):
             ctx.check(ok, "assert.error-text-carries-message", lambda: {"text": text, "message": message, **detail()})
     else:
         ctx.check(raised is None, "expectThat.never-raises", detail)
-        ctx.check(outs == (["addSuccess"] if want else ["addFailure"]), "expectThat.test-fails-afterwards", detail)
+        clean = "addSkip" if case.get("where") == "setUp-then-skip" else "addSuccess"
+        ctx.check(outs == ([clean] if want else ["addFailure"]), "expectThat.test-fails-afterwards", detail)
     if not want and how != "assert_that":
         have = observed["details"]
         ok = all(have.get(name) == text.encode("utf8") for name, text in pre)
@@ -298,7 +312,9 @@ def run(ctx):
             continue
         pre = [[nm, "PRE-%s" % nm] for nm in rng.sample(names, rng.randint(0, 4))]
         md = [[nm, "MM-%s" % nm] for nm in rng.sample(names, rng.randint(0, 3))]
-        ctx.execute("assert", {"expr": e, "value": rng.choice(vals),
-                               "how": rng.choice(["assertThat", "assert_that", "expectThat"]),
+        how = rng.choice(["assertThat", "assert_that", "expectThat"])
+        ctx.execute("assert", {"expr": e, "value": rng.choice(vals), "how": how,
+                               "where": rng.choice(["test", "test", "setUp", "setUp-then-skip"])
+                               if how == "expectThat" else "test",
                                "message": rng.choice(MESSAGES), "verbose": rng.random() < 0.5,
                                "pre": pre, "details": md})
